@@ -177,7 +177,10 @@ func (ch validatorCreateChange) dirtied() *common.Address {
 }
 
 func (ch validatorDeleteChange) revert(s *StateDB) {
+	// RemoveValidator flags the very object it journals and takes it out of the statistics
+	ch.oldVal.deleted = false
 	s.setValidator(ch.oldVal)
+	s.incrValidatorsStat(ch.oldVal)
 }
 
 func (ch validatorDeleteChange) dirtied() *common.Address {
